@@ -24,6 +24,9 @@ Kf(name) == PrintT(<<"KF", l, name>>)
 
 FbSchemas == {"1.15.0", "1.17.0", "1.18.0d", "1.18.0o", "2.18.0", "2.20.1", "2.20.2", "2.20.3", "2.21.0", "2.21.1", "2.21.2"}
 
+\* snapshot() of every live track returned a value (a getter that throws on a LIVE track is a rejection, not an error of
+\* the evaluation: this conjunct comes first in every action that reads the snapshots)
+SnapsThere(r) == Has(r, "obs") /\ \A x \in ToSet(r.obs.tk) : Has(x.snap, "v")
 \* snapshots of all live tracks as observed in record r
 Snaps(r) == [id \in {x.id : x \in ToSet(r.obs.tk)} |-> (CHOOSE x \in ToSet(r.obs.tk) : x.id = id).snap.v]
 
@@ -170,6 +173,7 @@ TCall ==
     /\ ~probing
     /\ LET r == Log[l] IN
        /\ r.e = "call" /\ ~Has(r, "probe")
+       /\ SnapsThere(r)
        /\ IF Faulted(r)
           THEN \/ /\ r.out = "throw" /\ r.std /\ r.dsame /\ Unchanged(r)        \* C14
                   /\ ts' = ts /\ dead' = dead /\ pinfo' = pinfo
@@ -199,7 +203,7 @@ TCall ==
 TReopen ==
     /\ l <= Len(Log)
     /\ LET r == Log[l] IN
-       /\ r.e = "reopen" /\ r.out = "ok" /\ r.loaded = r.want
+       /\ r.e = "reopen" /\ r.out = "ok" /\ r.loaded = r.want /\ SnapsThere(r)
        /\ (Has(r, "csame") => r.csame)                                        \* C16: close + load changed no stored row
        /\ Unchanged(r)                                                       \* C10
        /\ ObsOK(r, ts, {}, fam, pinfo) = TRUE
